@@ -66,6 +66,12 @@ theorem no_underscore_in_default_keys :
     Defaults.leaves.all (fun r => r.1.all (fun key => !(key.toList.contains '_'))) = true := by
   decide
 
+/-- (added by the audit) `no_underscore_in_default_keys` is an `all` over the regenerated leaves and would hold vacuously
+for an empty list: the regenerated DEFAULTS tree has leaves, every leaf has a non-empty key path -/
+theorem default_leaves_nonempty :
+    Defaults.leaves.length ≥ 100 ∧ Defaults.leaves.all (fun r => !r.1.isEmpty) = true := by
+  decide
+
 /-- every style family has a `show`/colour-independent leaf set rooted at display.style.<family> -/
 theorem families_present :
     Defaults.families = ["base", "current", "dipole", "magnet", "markers", "sensor", "triangle", "triangularmesh"] := by
